@@ -381,7 +381,9 @@ RETCODE adfCreateHd ( struct AdfDevice * const               dev,
 /* pas fini */
            }
            free(dev->volList);
+           dev->volList = NULL;
            (*adfEnv.eFct)("adfCreateHd : adfCreateVol() fails");
+           return RC_ERROR;
         }
         dev->volList[i]->blockSize = 512;
     }
